@@ -341,10 +341,19 @@ def run(ctx, idx):
     d, r = res["NormalizeMeanToMid"]
     con = "%s.execute::control-points" % d.key
     sup = [x for x in r.super_calls if x[0].func.attr == "execute" and x[1] is not None]
+    raw_direct = None
     if not sup:
+        # the curve may be applied through a helper shared with NormalizeCurve (inlined here): the control points are then the
+        # list that reaches the sort of (raw, normal) pairs
+        for node_, arg_, fk_ in r.sorteds:
+            if isinstance(arg_, Lst) and arg_.what == "zip" and len(arg_.zipped) == 2 and isinstance(arg_.zipped[0], Lst) and arg_.zipped[0].items is not None:
+                raw_direct = (node_, arg_.zipped[0])
+    if not sup and raw_direct is None:
         ctx.violate("C08.h", con, d.module.rel, d.execute.node.lineno, "NormalizeMeanToMid no longer delegates to NormalizeCurve with computed RawValues")
     else:
-        raw = sup[0][1].d.get("RawValues")
+        raw = sup[0][1].d.get("RawValues") if sup else raw_direct[1]
+        if not sup:
+            sup = [(raw_direct[0],)]
         items = raw.items if isinstance(raw, Lst) and raw.items is not None else None
         if items is None or len(items) != 5:
             raise AnalysisError("C08.h: RawValues passed to NormalizeCurve is not a five-element list of statistics")
